@@ -11,6 +11,11 @@ LEAN_MODULES = ["TapkeeVerif.Props.C06"]
 LEAN_EXES = ["model_c06"]
 REQUIRED_THEOREMS_FINAL = [
     "TapkeeVerif.C06.covarianceUpper_upper",
+    "TapkeeVerif.C06.covarianceUpper_shift",
+    "TapkeeVerif.C06.one_pass_form_eq_cov",
+    "TapkeeVerif.C06.centred_sum_zero",
+    "TapkeeVerif.C06.covarianceMatrix_eq_cov",
+    "TapkeeVerif.C06.dense_sees_cov_without_mirror_iff",
     "TapkeeVerif.C06.dense_sees_cov",
     "TapkeeVerif.C06.dense_sees_cov_without_mirror_refuted",
     "TapkeeVerif.C06.randomized_sees_cov",
@@ -23,7 +28,7 @@ REQUIRED_THEOREMS = REQUIRED_THEOREMS_FINAL
 def case_line(c):
     return ("%s N=%d D=%d d=%d solver=%s seed=%d exact=%d data=%s"
             % (c["topic"], c["N"], c["D"], c["d"], c["solver"], c["seed"], 1 if c["exact"] else 0, sp.mat_text(c["rows"]))
-            + sp.decoy_fields(c))
+            + (" exactmean=1" if c.get("exactmean") else "") + sp.decoy_fields(c))
 
 
 def parse_case(line):
@@ -32,6 +37,7 @@ def parse_case(line):
     c = {"topic": line.split(" ", 1)[0], "N": int(f["N"]), "D": int(f["D"]), "d": int(f["d"]), "solver": f["solver"],
          "seed": int(f.get("seed", "1")), "exact": f.get("exact") == "1", "rows": rows, "label": "replay", "rank": None}
     sp.parse_decoys(f, c)
+    c["exactmean"] = f.get("exactmean") == "1"
     return c
 
 
@@ -71,6 +77,7 @@ def judge(ctx, binary, cases):
         for i, o in zip(idx, out):
             impl[i] = o
     jl, where = [], []
+    ncalls = {}
     verdicts = [None] * len(cases)
     for n, (c, line, io) in enumerate(zip(cases, lines, impl)):
         if io == "throw:eigendecomposition_error" and c["solver"] == "rand" and sp.rows_identical(c["rows"]):
@@ -87,6 +94,7 @@ def judge(ctx, binary, cases):
         if " P=- " in io:
             verdicts[n] = {"impl": io[:400], "model": "", "bad": [("proj", "no-projection-returned")], "soft": []}
             continue
+        ncalls[n] = sp.fields(io).get("calls", "1")
         jl.append(line + " " + io[3:])
         where.append(n)
     if jl:
@@ -111,6 +119,9 @@ def judge(ctx, binary, cases):
                 if not good(key, val):
                     kind = val.split(":")[0].split("@")[0]
                     (v["bad"] if key in PROPERTY_KEYS else v["soft"]).append((key, kind))
+            if cases[n]["topic"] == "pca" and ncalls.get(n) != "1":
+                # exactly one eigendecomposition per PCA embed() call reaches the hook
+                v["soft"].append(("calls", "eigendecompositions-seen=%s" % ncalls.get(n)))
             v["cmp"] = t.get("cmp", "")
             v["robust"] = t.get("robust", "")
             verdicts[n] = v
@@ -292,6 +303,25 @@ def gen_cases(ctx, quick):
                 add("anisotropic-exact-rank", "pca", solver, rows, N, D, rank, False, rank)
             add("anisotropic-exact-rank", "agree", "rand", rows, N, D, rank, False, rank)
             add("anisotropic-exact-rank", "agree", "dense", rows, N, D, rank, False, rank)
+        # 2e. WIDE anisotropy, Dense solver: rank-2 strips in D dims with covariance eigenvalue ratios down to 2^-44
+        N = r.range(5, 12)
+        D = r.range(2, 4)
+        rows = sp.anisotropic_points(r, N, D, 2, [r.choice([14, 18, 20, 21, 22])])
+        if sp.centred_points_rank(rows) == 2:
+            add("anisotropic-wide-dense", "pca", "dense", rows, N, D, 2, False, 2)
+            add("anisotropic-wide-dense", "pca", "dense", rows, N, D, 1, False, 2)
+            add("anisotropic-wide-dense", "agree", "dense", rows, N, D, 2, False, 2)
+        # 2f. feature values with MORE THAN 24 significant bits (coordinates up to 2^20 plus 2^-12 fractions: up to 33 bits);
+        #     for N = 2^m the mean is still free of rounding: equality demanded there (`exactmean`)
+        N = r.choice([4, 8, 16]) if r.chance(2, 3) else r.range(3, 12)
+        D = r.range(1, 4)
+        rows = [[Fraction(r.range(-2 ** 20, 2 ** 20)) + Fraction(r.range(0, 4095), 4096) for _ in range(D)] for _ in range(N)]
+        for d in ds_for(N, D, D)[:2]:
+            add("wide-mantissa", "pca", "dense", rows, N, D, d, False, None)
+            cases[-1]["exactmean"] = sp.is_pow2(N)
+        if sp.centred_points_rank(rows) <= min(D, N - 1):
+            add("wide-mantissa", "pca", "rand", rows, N, D, min(D, N - 1), False, None)
+            cases[-1]["exactmean"] = sp.is_pow2(N)
         # 3. dyadic (non-integer) features
         N = r.range(2, 16)
         D = r.range(1, 5)
@@ -306,6 +336,14 @@ def gen_cases(ctx, quick):
         add("agree", "agree", "dense", rows, N, D, r.range(1, top), False, D)
         if D <= N - 1:
             add("agree", "agree", "rand", rows, N, D, D, False, D)
+    # 4b. one case with many features and one with a mid-sized sample count per run (block-size dependent code paths):
+    #     D in {16, 17, 24}, N in {48, 64, 100}
+    Db, Nb = r.choice([16, 17, 24]), r.choice([48, 64, 100])
+    rows = sp.low_rank_points(r, 30, Db, Db, amp=2)
+    add("many-features", "pca", "dense", rows, 30, Db, r.range(1, 6), False, Db)
+    rows = sp.low_rank_points(r, Nb, 3, 3, amp=4)
+    add("mid-sample-count", "pca", "dense", rows, Nb, 3, 2, sp.is_pow2(Nb), 3)
+    add("mid-sample-count", "pca", "rand", rows, Nb, 3, 3, False, 3)
     # 5. many samples, few features, 8 and 1 OpenMP threads: every row of the embedding must be Pᵀ(x_i − mean) whatever the
     #    schedule (the per-sample loops of routines/pca.hpp); small D keeps the exact judge cheap
     for rnd in range(3 if quick else 12):
@@ -357,7 +395,8 @@ def correspond(ctx):
     ctx.extra["failure_signature_counts"] = dict(ctx._seen)
     ctx.cov["rule"] = ("compute_mean / compute_covariance_matrix called directly and PCA through the public API (hook matrix, "
                        "solver output, returned projection object, embedding) on integer (N = 2^m, exact mode), correlated "
-                       "low-rank/full-rank and dyadic feature data, the same in units 2^-40 .. 2^30, anisotropic exact-rank strips / slabs (covariance eigenvalue ratios 10^2 .. 10^7), N <= %d, D <= %d, d in {1, rank, min(N-1,D), random}, "
+                       "low-rank/full-rank and dyadic feature data, the same in units 2^-40 .. 2^30, anisotropic exact-rank strips / slabs (covariance eigenvalue ratios 10^2 .. 10^7 both solvers, down to 2^-44 Dense), "
+                       "feature values of up to 33 significant bits, one D in {16,17,24} and one N in {48,64,100} case per run, N <= %d, D <= %d, d in {1, rank, min(N-1,D), random}, "
                        "dense solver everywhere and the randomized solver on exact-rank data (rank <= d); N up to 3000 (thorough "
                        "20000) samples with OMP_NUM_THREADS = 8 and 1 for the per-sample loops; plus PCA vs "
                        "linear-kernel KPCA vs Euclidean MDS Gram agreement; every trace judged in exact rationals by "
